@@ -322,14 +322,19 @@ func (c *Classifier) LoadLicenses(dir string) error {
 	}
 
 	for _, f := range files {
-		relativePath := strings.Replace(f, dir, "", 1)
+		// filepath.Walk reports cleaned paths, so the directory as spelled by the
+		// caller ("dir/", "./dir", ".") need not be a prefix of f.
+		relativePath, err := filepath.Rel(dir, f)
+		if err != nil {
+			return err
+		}
 		sep := fmt.Sprintf("%c", os.PathSeparator)
 		segments := strings.Split(relativePath, sep)
 		if len(segments) < 3 {
 			c.tc.trace("Insufficient segment count for path: %s", relativePath)
 			continue
 		}
-		category, name, variant := segments[1], segments[2], segments[3]
+		category, name, variant := segments[0], segments[1], segments[2]
 		b, err := ioutil.ReadFile(f)
 		if err != nil {
 			return err
